@@ -293,9 +293,9 @@ func (t *tr) pkgCall(b avPkg, name string, ce *ast.CallExpr) []*cont {
 	case "time":
 		switch name {
 		case "After", "Tick":
-			return t.ret(avTick{})
+			return t.ret(avTick{t.timerSrc(name, ce)})
 		case "NewTicker", "NewTimer":
-			return t.ret(avTicker{})
+			return t.ret(avTicker{t.timerSrc(name, ce)})
 		}
 		t.evalArgs(ce)
 		return t.ret(avUnknown{})
